@@ -1,7 +1,8 @@
 """Quantifier lowering in ReCompiler::piece (C20, C12, C06, C07, C17) and bracket()."""
 import re
 from ..engine import rule, ok, bad, missing
-from ..table import render, summarize
+from ..table import render, summarize, strip_ver
+from ..facts import strip_lt
 from ..sym import show
 
 PIECE = "re_compiler::ReCompiler::piece"
@@ -343,4 +344,122 @@ def quant_reluctant(ctx):
             elif pp.kind in ("GreedyFixed", "Repeat"):
                 _group(g, "no-marker-greedy", True, "", loc)
     # quantifier characters are consumed: covered by the parser making progress (PARSE rules)
+    return _emit(g)
+
+
+# ------------------------------------------------------------------ the fixed-length repeats take the first way only
+
+SINGLE_WAY_DIRECT = "!<Operation as OperationControl>::contains_capturing_expressions(RET)"
+
+
+def _operand_fields(ctx):
+    """{struct path of an Operation variant: [names of its fields that hold operations]}"""
+    out = {}
+    en = next((a for a in ctx.f.raw.get("adts", []) if strip_lt(a["path"]) == "operation::Operation"), None)
+    if en is None:
+        return None
+    for v in en["variants"]:
+        tys = [strip_lt(f["ty"]) for f in v["fields"]]
+        if len(tys) != 1:
+            return None
+        st = next((a for a in ctx.f.raw["adts"] if strip_lt(a["path"]) == tys[0]), None)
+        if st is None or len(st["variants"]) != 1:
+            return None
+        out[tys[0]] = [f["name"] for f in st["variants"][0]["fields"] if "operation::Operation" in strip_lt(f["ty"])]
+    return out
+
+
+def _single_way_predicate(ctx, name):
+    """Is `name` (a function of the crate over &Operation) true for every operation that contains, anywhere below it,
+    a Choice with a capturing expression?  Accepted definition: Choice -> contains_capturing_expressions (or plainly
+    true); any other variant -> true as soon as it holds for one of children(); false only after all children."""
+    cands = [x for x in ctx.f.bodies if x.path.split("::")[-1] == name.split("::")[-1] and x.kind != "Closure" and x.argc == 1]
+    if len(cands) != 1:
+        return "no single function %s(&Operation)" % name
+    b = ctx.body(cands[0].path)
+    F = name
+    CH = "<Iter<T> as Iterator>::next(<Operation as OperationControl>::children(a1))"
+    for p in ctx.walk(b).paths:
+        gs, r = summarize(p)
+        gs = [strip_ver(g) for g in gs]
+        r = strip_ver(r)
+        var = next((g for g in gs if g.startswith("variant(a1)")), None)
+        if var is None:
+            return "a path of %s does not look at the kind of operation (%s)" % (F, gs[:2])
+        if var == "variant(a1)=Choice":
+            if r not in ("true", "<Operation as OperationControl>::contains_capturing_expressions(a1)"):
+                return "%s answers %s for a Choice" % (F, r[:80])
+            continue
+        if "Choice" in var:
+            return "%s treats Choice like %s" % (F, var)
+        rest = [g for g in gs if g != var]
+        if r == "false":
+            if rest != ["variant(%s)=None" % CH]:
+                return "%s answers false before it has asked all children (%s)" % (F, rest[:3])
+        elif r == "true":
+            if rest != ["variant(%s)=Some" % CH, "%s(%s as Some.0)" % (F, CH)]:
+                return "%s answers true under %s" % (F, rest[:3])
+        elif r == "<loop>":
+            if rest != ["variant(%s)=Some" % CH, "!%s(%s as Some.0)" % (F, CH)]:
+                return "%s goes on to the next child under %s" % (F, rest[:3])
+        else:
+            return "%s answers %s" % (F, r[:80])
+    return None
+
+
+@rule("FIXED-SINGLE-WAY", ["C01", "C19", "C20", "C03"], floor=3)
+def fixed_single_way(ctx):
+    """GreedyFixed and ReluctantFixed ask their operand for its first match at a position and drop the iterator
+    (ITER-RETAIN audits that): all matches of a fixed-length operand end at the same place, but they can differ in the
+    groups they set, which a later back-reference tells apart.  So piece() may build the two operators only for an
+    operand that cannot match in ways differing in groups: under `!contains_capturing_expressions(operand)`, or under
+    the negation of a predicate of the crate that holds for every operand with a group-setting alternative below it;
+    and children(), which that predicate walks, hands out every operation-valued field of every variant."""
+    pps = piece_paths(ctx)
+    if pps is None:
+        return [missing(PIECE)]
+    b, paths = pps
+    g = {}
+    preds = set()
+    for pp in paths:
+        if pp.kind not in ("GreedyFixed", "ReluctantFixed"):
+            continue
+        loc = b.loc(pp.p.blocks[-1])
+        gs = [strip_ver(x) for x in pp.gs]
+        direct = SINGLE_WAY_DIRECT in gs
+        via = [m.group(1) for m in (re.match(r"^!((?:\w+::)*\w+)\(RET\)$", x) for x in gs) if m and "OperationControl" not in m.group(1)]
+        preds.update(via)
+        _group(g, pp.kind, direct or bool(via), "%s is built for an operand that may match in several ways setting different groups: the operator takes the first way only, so a later back-reference sees just that one (`^(?:ab|a(b))*c\\1$` on `abcb`)" % pp.kind, loc)
+    for k in ("GreedyFixed", "ReluctantFixed"):
+        if k not in g:
+            g[k] = [False, "piece() no longer builds %s" % k, b.loc()]
+    for F in sorted(preds):
+        why = _single_way_predicate(ctx, F)
+        g["predicate|" + F.split("::")[-1]] = [why is None, why or "", b.loc()]
+    if not preds:
+        g["predicate|direct"] = [all(v[0] for k, v in g.items()), "no predicate guards the fixed-length repeats", b.loc()]
+    # children() is complete
+    of = _operand_fields(ctx)
+    if of is None:
+        g["children|shape"] = [False, "Operation is no longer an enum of one-field variants over structs", b.loc()]
+    else:
+        for st, fields in sorted(of.items()):
+            short_ = st.split("::")[-1]
+            cb = ctx.body("<%s as operation::OperationControl>::children" % st)
+            if not fields:
+                g["children|" + short_] = [cb is None or [strip_ver(render(w.ret)) for w in ctx.walk(cb).paths] == ["Vec::new()"], "%s has no operands but its children() is not empty" % short_, b.loc()]
+                continue
+            if cb is None:
+                g["children|" + short_] = [False, "%s holds operations (%s) but does not override children(): the default hands out none" % (short_, fields), b.loc()]
+                continue
+            rets = [strip_ver(render(w.ret)) for w in ctx.walk(cb).paths]
+            want = [["vec![a1.%s]" % f for f in fields], ["a1.%s" % f for f in fields]]
+            g["children|" + short_] = [len(fields) == 1 and (rets == want[0] or rets == want[1]), "children() of %s must hand out %s; found %s" % (short_, fields, rets), cb.loc()]
+        db = ctx.body("<operation::Operation as operation::OperationControl>::children")
+        if db is None:
+            g["children|dispatch"] = [False, "no dispatch of children() over the variants", b.loc()]
+        else:
+            rets = sorted(strip_ver(render(w.ret)) for w in ctx.walk(db).paths)
+            bad_ = [r for r in rets if not re.match(r"^(?:<\w+ as )?OperationControl>?::children\(a1 as (\w+)\.0\)$", r)]
+            g["children|dispatch"] = [not bad_ and len(rets) == len(of), "children() of Operation must hand on to the variant's own; found %s" % bad_[:3], db.loc()]
     return _emit(g)
